@@ -4,6 +4,7 @@ mime.create_grads_for_each_client.client_step, the server-gradient normalisation
 of mime / mime_lite, agnostic_fed_avg.create_domain_metrics_for_each_client.client_step
 and the fact that the packaged agnostic algorithm builds it without a regularizer."""
 from lib.c06tr import A_maskfun, A_server_grads, A_no_regularizer_arg
+from lib.mtr import A_no_hidden_inputs
 
 PRE = ('From Coq Require Import QArith.\n'
        'From FV Require Import Common.CMonoid Common.NanQ gen.Gen_util gen.Gen_tree_util Model.C06_Prims.\n')
@@ -16,6 +17,7 @@ MODULES = {
         'src': 'fedjax/core/models.py',
         'preamble': PRE,
         'items': [
+            A_no_hidden_inputs(allowed=('Model.__hash__',)),   # Model is id-hashed by design (documented in the class)
             A_maskfun('grad.scalar_loss', 'gen_scalar_loss', ['params', 'batch_example', 'rng'],
                       [('loss_vals', 'tree'), ('mask', 'otree'), ('reg', 'oQ')], ('expr', 'Q'), 'NanQ.t',
                       {'loss_fn': 'per_example_loss', 'batch': 'batch_example'}, SAFE_DIV),
@@ -34,6 +36,7 @@ MODULES = {
         'src': 'fedjax/algorithms/mime.py',
         'preamble': PRE,
         'items': [
+            A_no_hidden_inputs(),
             A_maskfun('create_grads_for_each_client.client_step', 'gen_mime_client_step', ['client_step_state', 'batch'],
                       [('grads', 'tree'), ('mask', 'tree'), ('st_grads_sum', 'tree'), ('st_num_sum', 'Q')],
                       ('dict', ['grads_sum', 'num_sum']), '(list NanQ.t * NanQ.t)',
@@ -44,12 +47,13 @@ MODULES = {
     'Gen_c06_mime_lite': {
         'src': 'fedjax/algorithms/mime_lite.py',
         'preamble': PRE,
-        'items': [A_server_grads('mime_lite.apply', 'gen_mime_lite_server_grads')],
+        'items': [A_no_hidden_inputs(), A_server_grads('mime_lite.apply', 'gen_mime_lite_server_grads')],
     },
     'Gen_c06_agnostic': {
         'src': 'fedjax/algorithms/agnostic_fed_avg.py',
         'preamble': PRE,
         'items': [
+            A_no_hidden_inputs(),
             A_maskfun('create_domain_metrics_for_each_client.client_step', 'gen_domain_step', ['step_state', 'batch'],
                       [('loss_vals', 'tree'), ('mask', 'tree'), ('ids', 'ids'), ('num_domains', 'nat'), ('reg', 'oQ'),
                        ('st_domain_loss', 'tree'), ('st_domain_num', 'tree')],
